@@ -3,11 +3,12 @@ import re
 from ..build import AnalysisBroken
 from ..interp import Obj, View, Interp, Sym
 from ..chibi import CG, INT_CATS
-from ..lib_sem import run_paths, signature, child_value, canon, INTSZ, FP
+from ..lib_sem import run_paths, signature, child_value, canon, INTSZ, FP, zero_test_terms
 from ..x86 import Unknown, lo, ext, C
 from .c01 import wrap
 
 U = 'codegen.c'
+NAN_RULE = 'R03.13'
 SCALARS = ('bool', 'char', 'short', 'int', 'long', 'uchar', 'ushort', 'uint', 'ulong', 'enum', 'ptr', 'float', 'double', 'ldouble')
 
 
@@ -18,8 +19,25 @@ def present(it, root, f):
     return isinstance(v, Obj)
 
 
-def skeleton(cg, rep, rule, fname, kind, mk, expect, result=None, both=()):
-    """expect(it, ctx) -> regex over the path signature; result(state, it, ctx, sig) -> (ok, detail) or None"""
+def _fp_truth_tests(s, cats):
+    """the conditional jumps of one path that test a floating child against zero: [(child, class, quality, condition term)]; quality 'exact' = an unordered
+    comparison (NaN) counts as "not zero", 'nan-is-false' = it counts as zero"""
+    out = []
+    last = None
+    for e in s.events:
+        if e[0] == 'eval' and e[1] == 'expr':
+            last = e[2]
+        elif e[0] == 'branch' and last is not None and cats.get(last) in FP:
+            c = canon(e[1])
+            zt = zero_test_terms(last, cats[last])
+            if c in zt:
+                out.append((last, cats[last], zt[c][1], c))
+    return out
+
+
+def skeleton(cg, rep, rule, fname, kind, mk, expect, result=None, both=(), nan_rule=None):
+    """expect(it, ctx) -> regex over the path signature; result(state, it, ctx, sig) -> (ok, detail) or None
+    nan_rule: rule id under which every truth test of a floating operand is required to treat NaN as non-zero"""
     where = '%s:%d' % (U, cg.cu.fn(fname).line)
     pack = run_paths(cg, fname, mk)
     nsig = 0
@@ -41,6 +59,13 @@ def skeleton(cg, rep, rule, fname, kind, mk, expect, result=None, both=()):
                    where=where, facts={'trace': tr.text()})
             for t in re.findall(r'T:(\w[\w.]*):([01])', sig):
                 seen_tests.setdefault((shape, t[0]), set()).add(t[1])
+            if nan_rule:
+                for child, cat, qual, cterm in _fp_truth_tests(s, cats):
+                    rep.ob(nan_rule, '%s:truth-test-of-%s/%s:nan-is-nonzero' % (key, child, cat), qual == 'exact',
+                           'in %s the truth test of the %s operand `%s` is %r: when the value is a NaN the comparison with zero is unordered and the emitted jump treats that as "equal to zero", '
+                           'so the construct takes the branch of a false condition (the else branch / the third operand / no further iteration / && stops, || goes on); '
+                           'C11 6.8.4.1p2, 6.8.5p4, 6.5.13-15: the branch is selected by whether the expression compares unequal to 0, and a NaN does' % (kind, cat, child, cterm),
+                           where='%s:%d' % (U, cg.cu.fn('cmp_zero').line) if 'cmp_zero' in cg.cu.functions else where, facts={'trace': tr.text(), 'path': sig})
             if ok and result is not None:
                 try:
                     r = result(s, it, ctx, sig, cats)
@@ -77,7 +102,7 @@ def const_is(v):
     return f
 
 
-def r_logic(cg, rep, rule):
+def r_logic(cg, rep, rule, nan_rule=None):
     """&& and ||: left operand first, right operand only when needed, each operand tested for zero at its own type, result 0/1"""
     any_scalar = lambda label: cg.tcell(label, only=SCALARS)
     # --- expression level -------------------------------------------------------------
@@ -91,17 +116,20 @@ def r_logic(cg, rep, rule):
         return mk
     skeleton(cg, rep, rule, 'gen_expr', 'ND_LOGAND', mk_logic('ND_LOGAND'),
              lambda it, ctx: (r'^E:lhs (T:lhs:0|T:lhs:1 E:rhs T:rhs:[01]) END$', ''),
-             result=lambda s, it, ctx, sig, cats: const_is(1 if sig.endswith('T:rhs:1 END') else 0)(s, it, ctx, sig, cats))
+             result=lambda s, it, ctx, sig, cats: const_is(1 if sig.endswith('T:rhs:1 END') else 0)(s, it, ctx, sig, cats), nan_rule=nan_rule)
     skeleton(cg, rep, rule, 'gen_expr', 'ND_LOGOR', mk_logic('ND_LOGOR'),
              lambda it, ctx: (r'^E:lhs (T:lhs:1|T:lhs:0 E:rhs T:rhs:[01]) END$', ''),
-             result=lambda s, it, ctx, sig, cats: const_is(0 if sig.endswith('T:rhs:0 END') else 1)(s, it, ctx, sig, cats))
+             result=lambda s, it, ctx, sig, cats: const_is(0 if sig.endswith('T:rhs:0 END') else 1)(s, it, ctx, sig, cats), nan_rule=nan_rule)
 
 
 
 def r033(cg, rep):
     rep.rule('R03.3', 'for every statement and short-circuit form, each path through the emitted code is an execution of the C abstract machine: evaluation order, truth tests on the right operand with the right width, continue/break label placement, result value', floor=40)
+    rep.rule(NAN_RULE, 'a floating controlling expression / logical operand selects the branch by whether it compares unequal to zero, so a NaN (float, double or long double) takes the `true` branch: '
+                       'in every statement and short-circuit form (if, for/while, do, ?:, &&, ||) each truth test of a floating operand treats the unordered outcome as non-zero, '
+                       'and so do the shared zero test and `!` (the latter two: same obligations as C02 R02.4)', floor=30)
     any_scalar = lambda label: cg.tcell(label, only=SCALARS)
-    r_logic(cg, rep, 'R03.3')
+    r_logic(cg, rep, 'R03.3', nan_rule=NAN_RULE)
 
     def mk_cond(ctx):
         n = cg.node('node', 'ND_COND')
@@ -113,7 +141,7 @@ def r033(cg, rep):
         return n
     skeleton(cg, rep, 'R03.3', 'gen_expr', 'ND_COND', mk_cond,
              lambda it, ctx: (r'^E:cond (T:cond:1 E:then|T:cond:0 E:els) END$', ''),
-             result=lambda s, it, ctx, sig, cats: (None if cats.get('then') == 'void' else value_is('then' if 'E:then' in sig else 'els')(s, it, ctx, sig, cats)))
+             result=lambda s, it, ctx, sig, cats: (None if cats.get('then') == 'void' else value_is('then' if 'E:then' in sig else 'els')(s, it, ctx, sig, cats)), nan_rule=NAN_RULE)
 
     def mk_comma(ctx):
         n = cg.node('node', 'ND_COMMA')
@@ -147,7 +175,7 @@ def r033(cg, rep):
     def ex_if(it, ctx):
         e = present(it, ctx.root, 'els')
         return (r'^E:cond (T:cond:1 S:then|T:cond:0%s) END$' % (' S:els' if e else ''), 'else' if e else 'no-else')
-    skeleton(cg, rep, 'R03.3', 'gen_stmt', 'ND_IF', with_cond('ND_IF'), ex_if)
+    skeleton(cg, rep, 'R03.3', 'gen_stmt', 'ND_IF', with_cond('ND_IF'), ex_if, nan_rule=NAN_RULE)
 
     def ex_for(it, ctx):
         i, c, n = present(it, ctx.root, 'init'), present(it, ctx.root, 'cond'), present(it, ctx.root, 'inc')
@@ -156,11 +184,11 @@ def r033(cg, rep):
             return (None, shape)      # for(;;): no exit through the loop test; layout is checked by the linear rule below
         body = 'S:then L:node\\.cont_label %s' % ('E:inc ' if n else '')
         return (r'^%s(E:cond T:cond:1 %s)*E:cond T:cond:0 L:node\.brk_label END$' % ('S:init ' if i else '', body), shape)
-    skeleton(cg, rep, 'R03.3', 'gen_stmt', 'ND_FOR', with_cond('ND_FOR', nullable=True), ex_for)
+    skeleton(cg, rep, 'R03.3', 'gen_stmt', 'ND_FOR', with_cond('ND_FOR', nullable=True), ex_for, nan_rule=NAN_RULE)
 
     def ex_do(it, ctx):
         return (r'^(S:then L:node\.cont_label E:cond T:cond:1 )*S:then L:node\.cont_label E:cond T:cond:0 L:node\.brk_label END$', '')
-    skeleton(cg, rep, 'R03.3', 'gen_stmt', 'ND_DO', with_cond('ND_DO'), ex_do)
+    skeleton(cg, rep, 'R03.3', 'gen_stmt', 'ND_DO', with_cond('ND_DO'), ex_do, nan_rule=NAN_RULE)
 
     for kind, rx in (('ND_BLOCK', r'^(S:[\w.\[\]]+ )*END$'), ('ND_EXPR_STMT', r'^E:lhs END$'), ('ND_GOTO', r'^OUT:node\.unique_label EXIT$'),
                      ('ND_LABEL', r'^L:node\.unique_label S:lhs END$'), ('ND_CASE', r'^L:node\.label S:lhs END$'),
@@ -703,6 +731,16 @@ def r035(P, rep):
             labs = [getattr(e[2][0], 'label', None) for e in looks]
             want = ['scope.' + field, 'scope.next.' + field, 'scope.next.next.' + field][:len(labs)]
             rep.ob('R03.5', 'parse.c:%s:innermost-first' % fn, labs == want, '%s consults %r; C11 6.2.1 requires the innermost scope first, then outward, in the %s name space' % (fn, labs, field), where=where)
+            for e in looks:
+                if e[1] != 'hashmap_get2':
+                    continue
+                kl = _loc_len(e[2][1:3])
+                if kl is None and not (len(e[2]) >= 3 and isinstance(e[2][1], Sym) and e[2][1].name == 'tok.loc' and isinstance(e[2][2], int)):
+                    rep.undecided('R03.5', 'parse.c:%s:looks-up-whole-identifier' % fn, 'the key handed to hashmap_get2 (%r, %r) is not recognisably the spelling of the identifier token' % tuple(e[2][1:3]), where=where)
+                    continue
+                rep.ob('R03.5', 'parse.c:%s:looks-up-whole-identifier' % fn, kl == ('tok', 0),
+                       '%s looks the identifier up by the key (%r, %r) instead of its whole spelling (tok->loc, tok->len): identifiers that agree on that part are taken for the same name, '
+                       'so a use binds to the declaration of another identifier (C11 6.2.1: an identifier denotes the entity its own declaration introduced)' % (fn, e[2][1], e[2][2]), where=where)
             hit = None
             for e in looks:
                 r = it.settle(e[4]) if isinstance(e[4], View) else e[4]
@@ -739,6 +777,14 @@ def r035(P, rep):
             puts = [e for e in ctx.events if e[0] == 'call' and e[1] in ('hashmap_put', 'hashmap_put2')]
             ok = len(puts) == 1 and getattr(puts[0][2][0], 'label', None) == 'scope.' + field
             rep.ob('R03.5', 'parse.c:%s:inserts-innermost' % fn, ok, '%s inserts into %r instead of the innermost scope\'s %s table' % (fn, [getattr(e[2][0], 'label', None) for e in puts], field), where=where)
+            for e in puts:
+                if e[1] == 'hashmap_put2' and fn == 'push_tag_scope':
+                    kl = _loc_len(e[2][1:3])
+                    if kl is None and not (len(e[2]) >= 3 and isinstance(e[2][1], Sym) and e[2][1].name == 'tok.loc' and isinstance(e[2][2], int)):
+                        rep.undecided('R03.5', 'parse.c:%s:enters-whole-identifier' % fn, 'the key handed to hashmap_put2 (%r, %r) is not recognisably the spelling of the tag token' % tuple(e[2][1:3]), where=where)
+                        continue
+                    rep.ob('R03.5', 'parse.c:%s:enters-whole-identifier' % fn, kl == ('tok', 0),
+                           '%s enters the tag under the key (%r, %r) instead of its whole spelling (tok->loc, tok->len): tags that agree on that part overwrite one another' % (fn, e[2][1], e[2][2]), where=where)
     # enter/leave
     it = Interp(P, pu, {'track_stores': True, 'globals': {'scope': lambda ctx: Obj('Scope', lazy=True, label='scope')}})
     for ctx, out in it.explore('enter_scope', lambda ctx: []):
@@ -1135,7 +1181,366 @@ def r03a(P, rep):
             rep.undecided('R03.10', 'parse.c:%s:tree' % fname, 'no returning path builds a tree', where=where)
 
 
-def r036(P, rep):
+# ------------------------------------------------- label name space: goto / &&label bind to the label of the same name (C11 6.8.6.1, 6.2.3) ---
+LABEL_LISTS = ('gotos', 'labels')           # bookkeeping lists of parse.c: references awaiting resolution / labels defined in the current function
+LABEL_NAMES = ('a', 'ab', 'abc', 'Ab', 'ac', 'b')      # small model: proper prefixes, extensions, a case variant, an equally long other name, an unrelated name
+
+
+def _list_writers(pu, resolver):
+    """{function: set of lists} -- the functions (other than the resolver) that store a non-null node into gotos / labels"""
+    out = {}
+    for f, fd in pu.functions.items():
+        if f == resolver:
+            continue
+        for b in fd.walk():
+            if b.kind != 'BinaryOperator' or b.opcode != '=' or len(b.inner) != 2:
+                continue
+            l = b.inner[0].strip()
+            g = pu.globals.get(l.ref_name) if l.kind == 'DeclRefExpr' and l.ref_name in LABEL_LISTS else None
+            if g is None or l.ref_id != g.id:
+                continue
+            r = b.inner[1].strip_all()
+            if r.int_value() == 0 or (r.kind == 'BinaryOperator' and r.opcode == '='):
+                continue        # a reset (checked by R03.6 lists-cleared)
+            out.setdefault(f, set()).add(l.ref_name)
+    return out
+
+
+def _token_params(pu, f):
+    return [q for q in pu.params(f) if (q.type or '').replace(' ', '') in ('Token*', 'Token**')]
+
+
+def _spelling_fn(P, pu, f, cache):
+    """True: f(Token *t) returns, on every returning path, a copy of the whole spelling of t (strndup(t->loc, t->len))"""
+    if f in cache:
+        return cache[f]
+    cache[f] = False
+    ps = pu.params(f) if f in pu.functions else None
+    if not ps or len(ps) != 1 or (ps[0].type or '').replace(' ', '') != 'Token*':
+        return False
+    it = Interp(P, pu, {'opaque': ['strndup'], 'loop_limit': 1})
+    try:
+        res = it.explore(f, lambda ctx: [Obj('Token', lazy=True, label='t')], max_paths=200)
+    except AnalysisBroken:
+        return False
+    n = 0
+    for ctx, out in res:
+        if out[0] != 'ret':
+            continue
+        n += 1
+        ev = [e for e in ctx.events if e[0] == 'call' and e[1] == 'strndup' and e[4] is out[1]]
+        if not ev or _loc_len(ev[0][2]) != ('t', 0):
+            return False
+    cache[f] = n > 0
+    return cache[f]
+
+
+def _loc_len(args):
+    """strndup(T->loc, T->len + c) -> (label of T, c); None when the arguments are anything else"""
+    from ..interp import Lin
+    if len(args) < 2 or not isinstance(args[0], Sym) or not args[0].name.endswith('.loc'):
+        return None
+    t = args[0].name[:-len('.loc')]
+    l = Lin.of(args[1])
+    if isinstance(l, int) or l is None:
+        return None
+    terms = list(l.terms.values())
+    if len(terms) != 1 or terms[0][0] != 1 or not isinstance(terms[0][1], Sym) or terms[0][1].name != t + '.len':
+        return None
+    return (t, l.c)
+
+
+def _creator_paths(P, pu, fname, plain, inline):
+    """explore one function that links nodes into gotos/labels: plain constructors and the list helpers `inline` are interpreted, every other callee is opaque"""
+    from ..lib_parse import TokenModel
+    from ..interp import _Ref, VarPlace
+    called = set()
+    todo = [fname]
+    while todo:
+        g = todo.pop()
+        for c in pu.fn(g).find('CallExpr'):
+            n = c.callee()
+            if n and n not in called:
+                called.add(n)
+                if (n in plain or n in inline) and n in pu.functions:
+                    todo.append(n)
+    opq = sorted(c for c in called if c not in plain and (c not in inline or c == fname) and c not in ('equal', 'consume', 'skip', 'calloc') and c != 'error' and not c.startswith('error_'))
+    tm = TokenModel(P, pu, [fname], extra_opaque=opq, globals_={'scope': lambda ctx: Obj('Scope', lazy=True, label='scope')}, loop_limit=1, forever_limit=3)
+    it = tm.interp()
+    ps = pu.params(fname)
+
+    def mk(ctx):
+        a = []
+        ctx.tok0 = None
+        for q in ps:
+            t = (q.type or '').replace(' ', '')
+            if t == 'Token**':
+                a.append(_Ref(VarPlace({'rest': None}, 'rest')))
+            elif t == 'Token*':
+                a.append(tm.token(q.name or 'tok'))
+                if ctx.tok0 is None:
+                    ctx.tok0 = a[-1]
+            elif t == 'Node*':
+                a.append(Obj('Node', lazy=True, label=q.name or 'node'))
+            elif t in ('int', 'long', 'bool'):
+                a.append(Sym(q.name or 'n', t))
+            else:
+                a.append(it.lazy_value(q.type, q.name or 'arg'))
+        return a
+    return it, [(ctx, o) for ctx, o in it.explore(fname, mk, max_paths=3000) if o[0] == 'ret']
+
+
+def _label_creators(P, pu, rep, rule, resolver):
+    """the classes of nodes the parser links into gotos / labels and what each carries as its name; also the obligations on the creating code"""
+    from ..lib_parse import spelled, OTHER
+    NK = {v: k for k, v in pu.enums.items() if k.startswith('ND_')}
+    plain = _plain_constructors(pu)
+    writers = _list_writers(pu, resolver)
+    helpers = set(f for f in writers if not _token_params(pu, f))        # list helpers (push a given node): interpreted inside their callers
+    todo = set(f for f in writers if f not in helpers)
+    for f, fd in pu.functions.items():
+        if f != resolver and f not in helpers and any(c.callee() in helpers for c in fd.find('CallExpr')):
+            todo.add(f)
+    classes = {}
+    cache = {}
+    for fname in sorted(todo):
+        where = 'parse.c:%d' % pu.fn(fname).line
+        try:
+            it, paths = _creator_paths(P, pu, fname, plain, helpers)
+        except AnalysisBroken as e:
+            rep.undecided(rule, 'parse.c:%s:label-bookkeeping' % fname, 'the function is not interpretable: %s' % e, where=where)
+            continue
+        for ctx, o in paths:
+            it.ctx = ctx
+            for G in LABEL_LISTS:
+                v = ctx.globals.get(G)
+                v = it.settle(v) if isinstance(v, View) else v
+                if not isinstance(v, Obj) or v.lazy:
+                    continue
+                kind = NK.get(v.fields.get('kind')) if isinstance(v.fields.get('kind'), int) else None
+                tok0 = getattr(ctx, 'tok0', None)
+                if kind is None or tok0 is None:
+                    rep.undecided(rule, 'parse.c:%s:label-bookkeeping' % fname, 'a node of unknown kind / origin is linked into `%s`' % G, where=where)
+                    continue
+                key = 'parse.c:%s:%s' % (fname, kind)
+                sp = spelled(it, tok0) or []
+                lead = sp[0] if len(sp) == 1 and sp[0] != OTHER else None         # keyword / punctuator the construct starts with; None: it starts with the identifier itself
+                ident = tok0.label + ('.next' if lead else '')
+                nxt = v.fields.get('goto_next')
+                rep.ob(rule, key + ':linked-in-front-of-earlier-%s' % G, isinstance(nxt, View) and nxt.cell.label == 'g:' + G,
+                       '%s() makes a %s node the head of `%s` with goto_next = %r instead of the previous head: the %s seen earlier in the function are lost before they are resolved'
+                       % (fname, kind, G, nxt, 'labels' if G == 'labels' else 'goto statements / &&label expressions'), where=where, facts={'path': ctx.trail[-6:]})
+                # the name the node carries
+                lab = v.fields.get('label')
+                lab = it.settle(lab) if isinstance(lab, View) else lab
+                name = None
+                if lab is not None and not (isinstance(lab, int) and lab == 0):
+                    src = None
+                    for e in ctx.events:
+                        if e[0] == 'call' and e[4] is lab:
+                            if e[1] == 'strndup':
+                                src = _loc_len(e[2])
+                            elif _spelling_fn(P, pu, e[1], cache) and e[2]:
+                                tl = _vlabel(it, e[2][0])
+                                src = (tl, 0) if tl else None
+                    if src is None:
+                        rep.undecided(rule, key + ':name-is-whole-identifier', 'the name stored in the node (%r) is not recognisably a copy of a token\'s spelling' % (lab,), where=where)
+                        continue
+                    good = src == (ident, 0)
+                    rep.ob(rule, key + ':name-is-whole-identifier', good,
+                           '%s() names a %s node after %s: a label name is the whole spelling of the identifier of the construct (`%s`), otherwise two different labels get the same name '
+                           'or a goto does not find its label'
+                           % (fname, kind, ('the first %d characters short of the spelling of token `%s`' % (-src[1], src[0])) if src[1] < 0 else
+                              ('%d characters more than the spelling of token `%s`' % (src[1], src[0])) if src[1] > 0 else 'token `%s`' % src[0], ident),
+                           where=where, facts={'path': ctx.trail[-6:]})
+                    if not good:
+                        continue
+                    name = 'copy'
+                tl = _vlabel(it, v.fields.get('tok'))
+                pos = 0 if tl == tok0.label else (1 if tl == tok0.label + '.next' else None)
+                ul = v.fields.get('unique_label')
+                ul = it.settle(ul) if isinstance(ul, View) else ul
+                if ul is None or (isinstance(ul, int) and ul == 0):
+                    uniq = 'null'
+                elif any(e[0] == 'call' and e[4] is ul for e in ctx.events):
+                    uniq = 'fresh'
+                else:
+                    uniq = 'other'
+                classes.setdefault((G, fname, kind, lead, name, pos, uniq), where)
+    return classes
+
+
+def _m_str(fn):
+    def h(it, ctx, n, args):
+        if all(isinstance(a, (str, int)) for a in args):
+            try:
+                return fn(*args)
+            except (TypeError, ValueError, IndexError):
+                pass
+        from ..interp import Term
+        r = Term(n.callee() or 'call', *args)
+        ctx.emit('call', n.callee(), args, n.line, r)
+        return r
+    return h
+
+
+def _cmpi(a, b):
+    return (a > b) - (a < b)
+
+
+LABEL_MODELS = {'strcasecmp': _m_str(lambda a, b: _cmpi(a.lower(), b.lower())), 'strncasecmp': _m_str(lambda a, b, k: _cmpi(a[:k].lower(), b[:k].lower())),
+                'strstr': _m_str(lambda a, b: a[a.index(b):] if b in a else 0), 'strchr': _m_str(lambda a, c: a[a.index(chr(c)):] if chr(c) in a else 0)}
+
+
+def _name_relation(bound, wanted):
+    if bound == wanted:
+        return 'same'
+    if wanted.startswith(bound):
+        return 'a-proper-prefix'
+    if bound.startswith(wanted):
+        return 'an-extension'
+    if bound.lower() == wanted.lower():
+        return 'a-case-variant'
+    return 'another-name'
+
+
+def r03c(P, rep):
+    """returns True when the binding of references to labels was decided (either way) by the concrete model"""
+    import itertools
+    RULE = 'R03.12'
+    rep.rule(RULE, 'label name space: every goto statement and &&label expression is bound to the label of the current function whose identifier has exactly the same spelling '
+                   '(never to a label whose name is a prefix, an extension, a case variant or any other name), a reference without such a label is diagnosed; the nodes the parser '
+                   'queues for this carry the whole identifier as their name and are linked in front of the earlier ones. Decided by interpreting resolve_goto_labels() on every '
+                   'ordering of small label sets built the way the parser builds them', floor=14)
+    pu = P.unit('parse.c')
+    resolver = 'resolve_goto_labels'
+    if resolver not in pu.functions:
+        raise AnalysisBroken('resolve_goto_labels vanished')
+    where = 'parse.c:%d' % pu.fn(resolver).line
+    classes = _label_creators(P, pu, rep, RULE, resolver)
+    refs = sorted((c for c in classes if c[0] == 'gotos'), key=repr)
+    defs = sorted((c for c in classes if c[0] == 'labels'), key=repr)
+    if not refs or not defs:
+        rep.undecided(RULE, 'parse.c:%s:model' % resolver, 'no code that queues a %s was recognised' % ('goto / &&label' if not refs else 'label'), where=where)
+        return False
+    for c in refs + defs:
+        if c[5] is None or c[6] == 'other' or (c[0] == 'labels' and c[6] != 'fresh'):
+            if c[0] == 'labels' and c[6] == 'null':
+                rep.ob(RULE, 'parse.c:%s:%s:label-gets-a-unique-name' % (c[1], c[2]), False, '%s() queues a %s node without a unique label: the code generator has no assembler label to define for it' % (c[1], c[2]), where=classes[c])
+            else:
+                rep.undecided(RULE, 'parse.c:%s:%s:model' % (c[1], c[2]), 'the node\'s token / unique label is set in a way the model does not represent', where=classes[c])
+            return False
+    TK = pu.enums
+
+    def tokens(spells):
+        """a token chain over one source text, the way the tokenizer leaves it: loc points into the text (which goes on after the token), len is the token's length"""
+        text = ''.join(sp + gap for sp, gap in spells)
+        out = []
+        pos = 0
+        for sp, gap in spells:
+            t = Obj('Token', lazy=True, label='tok:' + sp)
+            ident = sp[0].isalpha() and sp not in ('goto',)
+            t.fields.update(loc=text[pos:], len=len(sp), kind=TK['TK_IDENT'] if ident else TK.get('TK_KEYWORD' if sp[0].isalpha() else 'TK_PUNCT', TK['TK_IDENT'] + 1))
+            pos += len(sp) + len(gap)
+            if out:
+                out[-1].fields['next'] = t
+            out.append(t)
+        out[-1].fields['next'] = Obj('Token', lazy=True, label='tok:rest')
+        return out
+
+    def build(cls, name):
+        G, fname, kind, lead, nm, pos, uniq = cls
+        ts = tokens([(lead, ' ' if lead[0].isalpha() else ''), (name, ''), (';', ' ')] if lead else [(name, ''), (':', ' '), (';', ' ')])
+        n = Obj('Node', lazy=True, label='%s:%s' % (kind, name))
+        n.fields.update(kind=TK[kind], tok=ts[pos], label=name if nm else 0, goto_next=0,
+                        unique_label=('L.' + name) if G == 'labels' else (0 if uniq == 'null' else 'U.' + name))
+        return n
+
+    def chain(nodes):
+        for a, b in zip(nodes, nodes[1:]):
+            a.fields['goto_next'] = b
+        return nodes[0] if nodes else 0
+
+    def run(rcls, dcls, wanted, present):
+        def scn(ctx):
+            if not hasattr(ctx, 'scn'):
+                ctx.scn = ([build(rcls, g) for g in wanted], [build(dcls, l) for l in present])
+                chain(ctx.scn[0]); chain(ctx.scn[1])
+            return ctx.scn
+        it = Interp(P, pu, {'track_stores': True, 'models': LABEL_MODELS,
+                            'globals': {'gotos': lambda ctx: (scn(ctx)[0] or [0])[0], 'labels': lambda ctx: (scn(ctx)[1] or [0])[0]}})
+        res = it.explore(resolver, lambda ctx: [], max_paths=50)
+        if len(res) != 1:
+            return None
+        ctx, out = res[0]
+        return out, [g.fields.get('unique_label') for g in ctx.scn[0]]
+
+    decided = True
+    for rcls in refs:
+        kind = rcls[2]
+        key = 'parse.c:%s:%s' % (resolver, kind)
+        wrong = {}          # relation -> example
+        unbound = undiag = None
+        broken = None
+        nrun = 0
+        for dcls in defs:
+            try:
+                for k in (0, 1, 2, 3):
+                    for perm in itertools.permutations(LABEL_NAMES, k):
+                        scen = [(list(perm), perm)] if perm else []
+                        if k <= 2:
+                            scen += [([m], perm) for m in LABEL_NAMES if m not in perm]
+                        for wanted, present in scen:
+                            r = run(rcls, dcls, wanted, present)
+                            if r is None:
+                                broken = broken or 'the resolver does not run to a single concrete outcome on goto %r with labels %r' % (wanted, list(present))
+                                continue
+                            nrun += 1
+                            out, got = r
+                            for g, u in zip(wanted, got):
+                                ex = 'reference to `%s` in a function whose labels are, newest first, %s' % (g, ', '.join('`%s`' % p for p in present) or '(none)')
+                                if isinstance(u, str) and u.startswith('L.'):
+                                    rel = _name_relation(u[2:], g)
+                                    if rel != 'same':
+                                        wrong.setdefault(rel, '%s is bound to label `%s`' % (ex, u[2:]))
+                                elif u == 0 or u is None:
+                                    if g in present and out[0] == 'ret':
+                                        unbound = unbound or '%s stays unresolved' % ex
+                                    elif g not in present and out[0] == 'ret':
+                                        undiag = undiag or '%s is accepted without a diagnostic' % ex
+                                    elif out[0] != 'ret' and all(w in present for w in wanted) and not any(x in (0, None) for x in got[:wanted.index(g)]):
+                                        unbound = unbound or '%s is diagnosed (%s) although the label exists' % (ex, out[1])
+                                elif isinstance(u, str) and u.startswith('U.'):
+                                    if g not in present and out[0] == 'ret':
+                                        undiag = undiag or '%s is accepted without a diagnostic' % ex
+                                    elif g in present:
+                                        unbound = unbound or '%s keeps the unique label it was created with' % ex
+                                else:
+                                    broken = broken or 'a reference is given %r' % (u,)
+            except AnalysisBroken as e:
+                broken = broken or 'the resolver is not interpretable on the model: %s' % e
+        if broken:
+            rep.undecided(RULE, key + ':model', broken, where=where)
+        if nrun == 0:
+            decided = False
+            continue
+        what = 'goto statement' if kind == 'ND_GOTO' else ('&&label expression' if kind == 'ND_LABEL_VAL' else kind + ' reference')
+        if not (broken and not unbound and not any(wrong.values())):
+            rep.ob(RULE, key + ':bound-to-the-label-of-the-same-name', not unbound and not wrong,
+                   'a %s is not bound to the label it names: %s (C11 6.8.6.1: goto jumps to the statement prefixed by the named label)' % (what, unbound or (sorted(wrong.values()) or [''])[0]), where=where)
+        for rel in ('a-proper-prefix', 'an-extension', 'a-case-variant', 'another-name'):
+            if broken and rel not in wrong:
+                continue
+            rep.ob(RULE, key + ':never-bound-to-a-label-whose-name-is-%s' % rel, rel not in wrong,
+                   'label names are compared so that %s of the requested name matches: %s; the %s jumps to / takes the address of the wrong statement' % (rel.replace('-', ' '), wrong.get(rel), what), where=where)
+        if not (broken and not undiag):
+            rep.ob(RULE, key + ':undeclared-label-diagnosed', not undiag, 'a %s naming a label the function does not define is not diagnosed: %s' % (what, undiag), where=where)
+        if broken and not (unbound or wrong or undiag):
+            decided = False
+    return decided
+
+
+def r036(P, rep, bound_decided=False):
     rep.rule('R03.6', 'labels are resolved per function: every goto gets the unique label of the label with the same name, an unmatched goto is diagnosed, and both lists are cleared afterwards; fresh label names never repeat', floor=4)
     pu = P.unit('parse.c')
     cu = P.unit('codegen.c')
@@ -1169,7 +1574,8 @@ def r036(P, rep):
         else:
             ndiag += 1
     rep.ob('R03.6', 'parse.c:resolve_goto_labels:unmatched-goto-diagnosed', ndiag >= 1, 'no path diagnoses a goto whose label does not exist', where=where)
-    if nmatch == 0:
+    if nmatch == 0 and not bound_decided:
+        # (when the names are not compared through strcmp the symbolic reading above has nothing to look at; R03.12 decides the binding on concrete label sets)
         rep.undecided('R03.6', 'parse.c:resolve_goto_labels:match', 'no path matches a goto with a label')
     # R03.4 fresh numbering: the counter functions return a function-static that every call increments
     for u, fn in ((cu, 'count'), (pu, 'new_unique_name')):
@@ -1198,19 +1604,24 @@ def run(P, rep, tier):
                        'requires every part of a selection/iteration statement to be parsed inside a scope of that statement (and no other statement form to open one). R03.2 also decides the emptiness test '
                        'of GNU case ranges per type class of the controlling expression (operand signedness of the comparison as clang types it). R03.10 explores every Node*-returning function of parse.c '
                        'with the plain node constructors interpreted and counts, in the tree each path returns, the links to every operand tree it was given: more than one link = evaluated more than once.')
-    rep.assumptions += ['children and sub-statements satisfy their contracts (structural induction)', 'floating truth tests are judged by C02 (R02.4); here either NaN treatment is accepted']
+    rep.assumptions += ['children and sub-statements satisfy their contracts (structural induction)', 'the order/placement obligations of R03.3 accept either NaN treatment of a floating truth test; the NaN treatment itself is R03.13']
     r033(cg, rep)
     r033_switch(cg, rep)
     r031(P, rep, cg.cat)
     r035(P, rep)
     r038(P, rep)
     r03a(P, rep)
-    r036(P, rep)
+    r036(P, rep, r03c(P, rep))
     # every statement form leaves the machine stack and the x87 register stack as it found them: a loop whose increment or condition
     # leaks a register-stack slot per iteration stops early (its condition turns NaN after eight iterations). C20's gen_stmt rule, re-used.
     # (c12 runs c03.run into a sub-report and c20 into another: guard against re-entrance through c20 -> ... is not needed, c20 imports only c04)
     from ..report import Report, reissue
-    from . import c20
+    from . import c20, c02
+    # the zero test every control-flow lowering shares (cmp_zero) and `!` on floating operands: C02's rule, re-used (a NaN condition that takes the
+    # false branch executes other statements than the abstract machine does)
+    sub = Report('C02')
+    c02.r024(cg, sub)
+    reissue(rep, NAN_RULE, sub, 'a NaN controlling expression takes the branch of a false condition: ', keep=lambda o: o['key'].startswith('R02.4:'))
     rep.rule('R03.11', 'every gen_stmt arm (if, for/while, do, switch, case, block, goto, label, return, expression statement) is stack-neutral on the machine stack and the x87 stack on every path, so iteration n+1 starts in the state iteration n started in (same obligations as C20 R20.2)', floor=10)
     sub = Report('C20')
     c20.run(P, sub, tier)
